@@ -377,9 +377,6 @@ theorem pending_mono_enqueue (o : Obj) (x : Cid) (v : Val) (i : Bool) (sd : Opti
   · left; cases i <;> simp [h]
   · right; cases i <;> simp <;> omega
 
-/-- the state in which `notify` runs: the new value is already stored -/
-def setVal (s : St) (x : Cid) (v : Val) : St := { s with value := upd s.value x (some v) }
-
 theorem publish_none (c : Cfg) (s : St) (x : Cid) (v : Val) (sd : Option Addr) (ht : s.topics x = none) :
     publish c s x v sd = s := by simp [publish, ht]
 
@@ -700,10 +697,23 @@ theorem discardStale_fresh (c : Cfg) (h12 : c.fix12 = true) (s : St) (a : Addr) 
       rw [hu] at hw; cases hw
       exact (Classical.not_not.mp hne).symm
 
-theorem invL_putVal (c : Cfg) (h12 : c.fix12 = true) (s : St) (p : ObjId) (x : Cid) (v : Val) (h : InvL c s)
+/-- without a setter callback `client_update_value` is assignment + change test + notify + reset -/
+theorem clientUpdate_none (c : Cfg) (s : St) (x : Cid) (v : Val) (sd : Option Addr) (h : c.cb x = Callback.none) :
+    clientUpdate c s x v sd = writeVal c s x v sd := by
+  rw [writeVal_eq]
+  simp only [clientUpdate, runCallback, h]
+  have hv : (setVal s x v).value x = some v := by simp [setVal]
+  simp only [hv]
+  by_cases hch : s.value x = some v
+  · have : ¬ (some v ≠ s.value x) := fun g => g hch.symm
+    simp [hch]
+  · have : some v ≠ s.value x := fun g => hch g.symm
+    simp [hch, this]
+
+theorem invL_putVal (c : Cfg) (h12 : c.fix12 = true) (hcb : c.cb x = Callback.none) (s : St) (p : ObjId) (v : Val) (h : InvL c s)
     (hA : InvA s) (hU : UniqInv s) (hp : p < s.nobj) (hpl : (s.obj p).lost = false) : InvL c (putVal c s p x v) := by
   intro q y hs
-  simp only [putVal] at hs ⊢
+  simp only [putVal, clientUpdate_none c s x v _ hcb] at hs ⊢
   generalize ha : (s.obj p).addr = a at hs ⊢
   -- the three stages
   generalize hs4 : writeVal c s x v (some a) = s4 at hs ⊢
